@@ -142,7 +142,8 @@ class JSONCodec(AbstractMetadataCodec):
 
     @classmethod
     def is_schema_trivial(self, schema: Mapping) -> bool:
-        return len(schema.get("properties", {})) == 0
+        # Validation can only be skipped if the schema places no constraint at all
+        return set(schema.keys()) <= {"codec"}
 
     def __init__(self, schema: Mapping[str, Any]) -> None:
         try:
